@@ -1,6 +1,6 @@
 ---------------------------- MODULE MC_Adaptive ----------------------------
 EXTENDS Adaptive, Json
-MCCfgSet == {cf \in [min : {1, 2}, initial : {1, 2, 3}, max : {2, 3}] : cf.min <= cf.max}
+MCCfgSet == {cf \in [min : {1, 2}, initial : {1, 2, 3}, max : {2, 3}, two : {0, 1}] : cf.min <= cf.max}
 MCOuts == {"ok", "e1", "panic"}
 Inv == NeverOverLimitAtAdmission /\ ZeroWhenIdle /\ LimitInBounds
 \* transition tour: every transition of the (small) model, printed with the level of its source state
